@@ -323,9 +323,11 @@ class ShrinkRule(sym.Rule):
         self.paths += 1
         n = class_n(f)
         cap0, size0 = atom(('init', ca)), atom(('init', sa))
-        C = st.mem.get(ca, cap0)
-        S = st.mem.get(sa, size0)
-        P = st.mem.get(pa) if pa is not None else None
+        C = eng.load(st, ca)
+        S = eng.load(st, sa)
+        P = eng.load(st, pa) if pa is not None else None
+        if any((a[0] == 'init' and len(a) > 2) for t in (C, S, P) if t is not None for a in sym.atoms_of(t)):
+            return      # an opaque helper rewrote the words: judged in that helper
 
         def has(pred, x, y, val):
             for (c, v) in st.conds:
